@@ -20,6 +20,12 @@ THEOREMS = ["Tx3.np_tryAsData", "Tx3.np_compileDataExpr", "Tx3.C14_compile_total
             "Tx3.C14_reduceOp_total", "Tx3.C14_compilerPass_total", "Tx3.C14_tx_reduce_total", "Tx3.C14_tx_compilerPass_total"]
 ASSUMPTIONS = [cc.MODEL_NOTE, "the stage correspondence of C06/C07 (apply, reduce, compiler pass on random TIR incl. the malformed stream) runs under catch_unwind as well"]
 
+WIDE_TEXT_RULE = (
+    "; plus the wide-text sweep: a 103-character text with a 2- or 4-byte character at every position in turn, and "
+    "runs of 2-byte characters of every length up to 80 bytes, where an address, a datum, a withdrawal credential or a "
+    "metadata value is expected"
+)
+
 
 def check(tier, seed, replay):
-    return cc.run(PROP, tier, seed, replay, TARGETS, THEOREMS, cc.GEN_RULE, ASSUMPTIONS)
+    return cc.run(PROP, tier, seed, replay, TARGETS, THEOREMS, cc.GEN_RULE + WIDE_TEXT_RULE, ASSUMPTIONS)
